@@ -841,6 +841,18 @@ def param_mutations(repo: Path) -> dict:
                     if isinstance(b, ast.Name) and b.id in al:
                         for t in n.targets:
                             if isinstance(t, ast.Name) and t.id not in pnames: al[t.id] = al[b.id]
+                # functions that may hand back THE SAME array (no copy when the argument already is an array of the requested type) or a view of it
+                if isinstance(n, ast.Assign) and isinstance(n.value, ast.Call):
+                    c = n.value; fsrc = unparse(c.func)
+                    src_arg = None
+                    if fsrc in VIEW_FUNCS and c.args: src_arg = c.args[0]
+                    elif isinstance(c.func, ast.Attribute) and c.func.attr in VIEW_METHODS: src_arg = c.func.value
+                    if src_arg is not None:
+                        b = src_arg
+                        while isinstance(b, (ast.Attribute, ast.Subscript)): b = b.value
+                        if isinstance(b, ast.Name) and b.id in al:
+                            for t in n.targets:
+                                if isinstance(t, ast.Name) and t.id not in pnames: al[t.id] = al[b.id]
         return al
 
     def base_name(e):
@@ -878,6 +890,9 @@ def param_mutations(repo: Path) -> dict:
     return {name: sorted(params[name].index(p) for p in ps if p in params[name]) for name, ps in mut.items()}, params
 
 
+VIEW_FUNCS = {"np.asarray", "np.asanyarray", "np.ascontiguousarray", "np.asfarray", "np.atleast_1d", "np.atleast_2d", "np.ravel", "np.reshape", "np.squeeze", "np.transpose",
+              "np.swapaxes", "np.expand_dims", "np.real", "numpy.asarray", "memoryview"}
+VIEW_METHODS = {"view", "reshape", "ravel", "squeeze", "transpose", "swapaxes"}
 HELPER_MUT: dict = {}
 HELPER_PARAMS: dict = {}
 
